@@ -79,7 +79,8 @@ static string gen_text(vt::Rng& r, int index = -1) {
   // grammar-generated parser input
   static const vector<string> atoms = {"00", "7F", "ff", "A", "b", " ", "\n", "\t", "?", "$", "\"abc\"", "\"a\\nb\\\"c\\\\\"", "\"\"", "'xy'", "'\\n\\'q'",
       "#1 ", "#255 ", "#0x1F ", "#-1 ", "##513 ", "##0xBEEF ", "###16909060 ", "###-2 ", "####72623859790382856 ", "####0x0102030405060708 ",
-      "####-1 ", "#010 ", "%1.5 ", "%-2 ", "%%0.25 ", "%%1024 ", "%0 ", "// comment 12\n", "/* block 34 */", "/*/", "/**/", "/* a\n b */",
+      "####-1 ", "#010 ", "%1.5 ", "%-2 ", "%%0.25 ", "%%1024 ", "%0 ", "%1.00000005960464478 ", "%1.00000017881393432 ", "%16777217.000000001 ", "%0.1 ", "%%0.1 ",
+      "%%1.00000005960464478 ", "// comment 12\n", "/* block 34 */", "/*/", "/**/", "/* a\n b */",
       "<file>", "zz", ",", "0x", "\"unterminated", "'\xC3\xA9'", "\"\xFF\x80\"", "#", "%", "##", "%%", "/", "*", "\\", "####18446744073709551615 ",
       "\"\\r\\t\\'q\"", "'\\r\\t\\\\z'", "$'ab'$", "\"x\\\"", "'y\\'"};
   string s;
